@@ -334,8 +334,21 @@ type c12config struct {
 	tmpDir string
 }
 
+// files written by the first execution of the current configuration: later executions find a LONGER left-over
+// file under each of these names (a previous execution of the same run into the same output path), which a
+// correct saver replaces completely
+var c12prevFiles map[string][]byte
+
 func c12saveOnce(cfg c12config, fx *c12fixture, memberBits [][]bool, run string, rep int) c12saveObs {
 	dir := filepath.Join(cfg.tmpDir, fmt.Sprintf("out%d", rep))
+	if rep%2 == 1 && len(c12prevFiles) > 0 {
+		os.MkdirAll(dir, 0o777)
+		for name, content := range c12prevFiles {
+			longer := append(append([]byte{}, content...), content...)
+			os.WriteFile(filepath.Join(dir, name), longer, 0o666)
+		}
+		c12stats["save_over_longer_leftover"]++
+	}
 	obs := c12saveObs{Listing: []string{}, Rows: []c12row{}, Header: []string{}}
 	saver := scenario.NewSaver().
 		WithOutputType(solenc.OutputType(cfg.otype)).
@@ -375,6 +388,14 @@ func c12saveOnce(cfg c12config, fx *c12fixture, memberBits [][]bool, run string,
 	sort.Strings(obs.Listing)
 	if !p {
 		c12parseSummary(&obs, dir, cfg.otype)
+	}
+	if rep == 0 {
+		c12prevFiles = map[string][]byte{}
+		for _, e := range entries {
+			if b, err := os.ReadFile(filepath.Join(dir, e.Name())); err == nil {
+				c12prevFiles[e.Name()] = b
+			}
+		}
 	}
 	os.RemoveAll(dir)
 	return obs
@@ -429,6 +450,7 @@ func c12saveCase(cfg c12config, fx *c12fixture, rng *prng) {
 	}
 	distinct := map[string]c12saveObs{}
 	var order []string
+	c12prevFiles = nil
 	for rep := 0; rep < cfg.reps; rep++ {
 		o := c12saveOnce(cfg, fx, memberBits, run, rep)
 		key, _ := encjson.Marshal(o)
